@@ -122,6 +122,7 @@ def build_model():
     out += out2
     if rc != 0:
         return rc, out
+    sh("rm -f *.cmi *.cmx *.o *.cmo", cwd=d)
     for s in srcs[1:]:
         sh(["cp", s, d], check=True)
     mls = "util.ml " + " ".join(os.path.basename(s) for s in srcs[1:]
